@@ -140,6 +140,8 @@ def run(ctx):
             nv += 1
     ctx.cov["families"].update({("compile/" + k): dict(ctx.cov["families"].get("compile/" + k, {}), **v) for k, v in stats.items()})
     ctx.cov["disagreements_checked"] = len(meta)
+    from vlib import regress
+    regress.search(ctx, {"C01"})          # the shape-agnostic search step (DESIGN.md 12.8)
     replay_findings(ctx)
     ctx.cov["rule"] = ("schemas of every systematic family of C05-C09/C11/C12 (thinned) and random in-guard schemas over every kind, half of them decorated with titles and "
                        "descriptions from a 14-entry text palette (newlines, quotes, comment terminators, %, backslashes, non-ASCII, U+2028, CRLF, 300 characters), each under 2 "
